@@ -279,6 +279,57 @@ def txnStep (d : TxnDrv) (line : String) : TxnDrv × String :=
       let d' : TxnDrv := { sys := (sysDrain (Sys.opened false det 0)).1 }
       fin "ok" d'
     | none => (d, "bad-op")
+  | ["reset", det, mgd] =>
+    -- `reset <detect> 1`: a managed DB (`OpenManaged`)
+    match boolArg det, boolArg mgd with
+    | some det, some mgd =>
+      let d' : TxnDrv := { sys := (sysDrain (Sys.opened mgd det 0)).1 }
+      fin "ok" d'
+    | _, _ => (d, "bad-op")
+  | ["beginat", tid, r, upd] =>
+    match natArg tid, natArg r, boolArg upd with
+    | some tid, some r, some upd =>
+      if tid ≠ s.txns.length then fin "skip" d else
+      match stepDrain s (.beginAt r upd) with
+      | some s1 => fin s!"r={r}" { d with sys := s1 }
+      | none => fin "skip" d
+    | _, _, _ => (d, "bad-op")
+  | ["commitat", tid, ts] =>
+    match natArg tid, natArg ts with
+    | some tid, some ts =>
+      if !s.o.isManaged then fin "skip" d else
+      match s.txns[tid]? with
+      | some x =>
+        if x.phase ≠ .active then fin "err=discarded" d else
+        if !(x.t.update && x.t.hasWrites) then
+          match stepDrain s (.discard tid) with
+          | some s1 => fin "ok-empty" { d with sys := s1 }
+          | none => fin "skip" d
+        else
+        if isAssert s (.commitAt tid ts) then fin "assert" d else
+        match stepDrain s (.commitAt tid ts) with
+        | some s1 =>
+          match (s1.txns[tid]?).bind (·.committedAt) with
+          | some cts =>
+            let mine := d.pend.filter (fun e => e.1 == tid)
+            let ks := dedup (mine.map (·.2.1))
+            let newVs := ks.filterMap (fun k => (pendGet d.pend tid k).map (fun v => (k, cts, v)))
+            fin s!"ok ts={cts}" { d with sys := s1, store := d.store ++ newVs }
+          | none =>
+            let s2 := (stepDrain s1 (.discard tid)).getD s1
+            fin "conflict" { d with sys := s2 }
+        | none => fin "skip" d
+      | none => fin "skip" d
+    | _, _ => (d, "bad-op")
+  | ["setdiscard", ts] =>
+    match natArg ts with
+    | some ts =>
+      if !s.o.isManaged then fin "skip" d else
+      if isAssert s (.setDiscardTs ts) then fin "assert" d else
+      match stepDrain s (.setDiscardTs ts) with
+      | some s1 => fin "ok" { d with sys := s1 }
+      | none => fin "skip" d
+    | none => (d, "bad-op")
   | ["begin", tid, upd] =>
     match natArg tid, boolArg upd with
     | some tid, some upd =>
@@ -361,6 +412,7 @@ def txnStep (d : TxnDrv) (line : String) : TxnDrv × String :=
   | ["commit", tid] =>
     match natArg tid with
     | some tid =>
+      if s.o.isManaged then fin "skip" d else
       match s.txns[tid]? with
       | some x =>
         if x.phase ≠ .active then fin "err=discarded" d else
